@@ -189,7 +189,12 @@ impl Marwood {
             }
         };
 
-        let word_token = tokens.iter().last().unwrap();
+        let word_token = match tokens.last() {
+            Some(token) => token,
+            None => {
+                return result;
+            }
+        };
         let word = word_token.span(text);
         let prefix = word_token.span_prefix(text);
 
